@@ -46,7 +46,8 @@ def bridge_src(enums):
     s = "#[diplomat::bridge]\nmod ffi {\n"
     for e, vs in enumerate(enums):
         s += f"    pub enum En{e} {{\n" + "".join(f"        {NAMES[i]}{'' if v is None else ' = ' + str(v)},\n" for i, v in enumerate(vs)) + "    }\n"
-        s += f"    impl En{e} {{ pub fn rt(self) -> En{e} {{ self }} }}\n"
+        s += (f"    impl En{e} {{\n        pub fn rt(self) -> En{e} {{ self }}\n"
+              f"        #[diplomat::attr(not(js), disable)]\n        pub fn opt(self) -> Option<En{e}> {{ Some(self) }}\n    }}\n")
     s += "}\n#[no_mangle]\npub extern \"C\" fn verif_disc(e: u32, v: u32) -> i64 {\n    match (e, v) {\n"
     for e, vs in enumerate(enums):
         for i in range(len(vs)):
@@ -153,13 +154,19 @@ def check(ctx, replay=None):
     if "js" in outs and rust:
         jd = outs["js"]
         open(os.path.join(jd, "diplomat-wasm.mjs"), "w").write(
-            "export default new Proxy({}, { get: (t, name) => (...args) => (globalThis.__ret !== undefined ? globalThis.__ret : args[0]) });\n")
+            "const memory = new WebAssembly.Memory({ initial: 4 }); let bump = 4096;\n"
+            "const base = { memory, diplomat_alloc(size, align) { bump = Math.ceil(bump / align) * align; const p = bump; bump += size + 16; return p; }, diplomat_free() {} };\n"
+            "export default new Proxy(base, { get(t, name) { if (name in t) return t[name]; const n = String(name);\n"
+            "  // Option<Enum> comes back through memory: discriminant at +0 (as Rust stores it: a signed 32-bit value), flag at +4\n"
+            "  if (n.endsWith('_opt')) return (buf, self) => { const v = new DataView(memory.buffer); v.setInt32(buf, globalThis.__ret !== undefined ? globalThis.__ret : self, true); v.setUint8(buf + 4, 1); };\n"
+            "  return (...args) => (globalThis.__ret !== undefined ? globalThis.__ret : args[0]); } });\n")
         drv = ["const out = [];"]
         for e, vs in enumerate(enums):
             drv.append(f'{{ const m = await import("./En{e}.mjs"); const E = m.En{e}; const names = {json.dumps(NAMES[:len(vs)])};')
             drv.append(f'  const vals = names.map(n => E[n].ffiValue); const byName = names.map(n => E.fromValue(n).ffiValue);')
             drv.append(f'  const back = {json.dumps(rust[e])}.map(d => {{ globalThis.__ret = d; let r; try {{ r = E[names[0]].rt(); }} catch (x) {{ r = undefined; }} globalThis.__ret = undefined; return r === undefined || r === null ? null : names.indexOf(r.value); }});')
-            drv.append(f'  out.push({{e: {e}, vals, byName, back}}); }}')
+            drv.append(f'  const backMem = {json.dumps(rust[e])}.map(d => {{ globalThis.__ret = d; let r; try {{ r = E[names[0]].opt(); }} catch (x) {{ r = undefined; }} globalThis.__ret = undefined; return r === undefined || r === null ? null : names.indexOf(r.value); }});')
+            drv.append(f'  out.push({{e: {e}, vals, byName, back, backMem}}); }}')
         drv.append("console.log(JSON.stringify(out));")
         open(os.path.join(jd, "drv.mjs"), "w").write("\n".join(drv))
         r = sh(["node", "drv.mjs"], cwd=jd, timeout=300)
@@ -168,6 +175,9 @@ def check(ctx, replay=None):
         else:
             for row in json.loads(r.stdout):
                 back = [b if (b is not None and b >= 0) else None for b in row["back"]]
+                back_mem = [b if (b is not None and b >= 0) else None for b in row["backMem"]]
+                if back_mem != back:
+                    back = back_mem          # a value that crosses through memory decodes differently: that one is reported
                 vals = row["vals"] if row["vals"] == row["byName"] else row["byName"]
                 record("Js", row["e"], vals, back)
     # --- Dart, Kotlin, nanobind: parsed tables (no toolchain here to execute them)
